@@ -13,11 +13,11 @@ NA={
 TEXT=json.load(open(ROOT+"/manifest_text.json"))
 out={"version":1,"setup_cmd":"./setup.sh",
  "hooks":{"guard":"verif-overlay",
-  "enable":"no source hooks are committed to /repo: /verif/simgen regenerates a go build overlay (go test -overlay /verif/.build/main/overlay.json: sync->nrisim/simsync, map ranges->nrisim/simorder, one added file exporting the accept loop) plus a scratch copy of ttrpc from the current working tree on every check; without the overlay /repo builds exactly as shipped",
+  "enable":"no source hooks are committed to /repo: /verif/simgen regenerates a go build overlay (go test -overlay /verif/.build/main/overlay.json: sync->nrisim/simsync, map ranges->nrisim/simorder, multi-case selects->seeded poll phase + original select, one added file exporting the accept loop) plus a scratch copy of ttrpc from the current working tree on every check; without the overlay /repo builds exactly as shipped",
   "baseline_off_cmd":"for m in $(cat /w/out/gomods.txt); do MF=$(cd /repo/$m && . /w/out/goenv.sh && gomodflag); (cd /repo/$m && go test $MF -json -vet=off -count=1 -timeout 25m ./...); done",
   "source_commits":[],"add_only":True},
  "engines":[{"name":"nrisim","path":"/verif/nrisim","serves_properties":sorted(checks.keys()),
-   "kind_free_text":"deterministic simulation with fault injection: one seeded scheduler on the root of a testing/synctest bubble decides every lock grant, message delivery (with chunking), fault (cut/kill/reset/close/hang/error/garbage), timer quantum and map iteration order; real NRI adaptation, stub, mux and ttRPC code run unmodified apart from the import redirect; replay by recorded event keys; bespoke minimisation"}],
+   "kind_free_text":"deterministic simulation with fault injection: one seeded scheduler on the root of a testing/synctest bubble decides every lock grant, message delivery (with chunking), fault (cut/kill/reset/close/hang/error/garbage), timer quantum, map iteration order and select-among-ready-cases outcome; real NRI adaptation, stub, mux and ttRPC code run unmodified apart from the import redirect; replay by recorded event keys; bespoke minimisation"}],
  "checks":[],"not_applicable":[],
  "notes":"All checks: ./check <ID> [--tier quick|thorough] [--seed N]; --replay FILE re-executes a recorded run; --selftest runs the determinism self-test; --mutant FILE applies a sensitivity edit to the generated copies. Exit 0 held / 1 VIOLATION / 2 build-watchdog-divergence trouble. KNOWN_FINDINGS.json lists genuine defects that are reported as KNOWN-FINDING lines."}
 for p in props:
